@@ -265,7 +265,7 @@ EvalE(e, S) ==
     [] e.k = "attr" ->
          LET o == EvalE(e.o, S) IN
          IF ~IsOk(o) THEN o
-         ELSE IF o.v.t = "dict" THEN Ok(DictGet(Cell(o.S, o.v.a), e.nc), o.S)
+         ELSE IF o.v.t = "dict" THEN Ok(ProtoGet(o.S, o.v.a, e.nc, {o.v.a}), o.S)
          ELSE IF o.v.t \in {"int", "flt", "str", "null"} THEN Err(o.S)
          ELSE Ood(o.S)
     [] e.k = "call" ->
